@@ -150,10 +150,15 @@ def _eval_single(cases):
         if not np.array_equal(before, Al):
             f.append(dict(kind='property', key='input-modified', detail={}))
         irregular = ('obs' in drv and '0' in drv['obs'])
+        # which theorem licenses the dilation comparison: every pixel (flat star-shaped: C01_dilate_regular_everywhere; non-flat
+        # height-monotone, e.g. the cross on a signed dtype: C01_dilate_height_monotone_everywhere) or box-interior pixels only
+        judged = ('n/a' if case['kind'] != 'dilate' else {'flat': 'all-pixels:flat-star', 'monotone': 'all-pixels:height-monotone'}.get(
+            drv.get('cls', ''), 'box-interior-only'))
         res.append(dict(findings=f, nontrivial=bool(irregular or not np.array_equal(got, A)),
                         sig=lines[len(res)] + case.get('layout', 'C'),
                         tags=dict(kind=case['kind'], dtype=case['dtype'], ndim=len(case['shape']),
-                                  layout=case.get('layout', 'C'), path=path,
+                                  layout=case.get('layout', 'C'), path=path, dilate_judged=judged,
+                                  signed=('signed' if case['dtype'].startswith('int') else 'unsigned-or-bool'),
                                   elem=('pyarg' if 'pyarg' in case else 'empty' if not any(case['bc']) else 'larger' if any(
                                       b > s for b, s in zip(case['bshape'], case['shape'])) else 'even' if any(
                                       b % 2 == 0 for b in case['bshape']) else 'odd'))))
@@ -323,6 +328,21 @@ def _rand_elem(rng, dtype, ndim, shape):
         bshape = [rng.choice([1, 2, 3]) for _ in range(ndim)]
     n = int(np.prod(bshape))
     style = rng.random()
+    if dtype != 'bool' and rng.random() < 0.2:
+        # "pyramid": heights fall off with the distance from the centre (l1 or linf), cells beyond the reach are absent or
+        # (signed) of height 0 -- coordinate-wise star-shaped and height-monotone towards the centre, not flat: the
+        # dilation is judged at EVERY pixel (C01_dilate_height_monotone_everywhere), also for even sides
+        top = rng.choice([1, 2, 3, 5, min(hi, 40)])
+        step = rng.choice([1, 1, 2])
+        norm = rng.choice(['l1', 'linf'])
+        floor = rng.choice([lo, lo, 0]) if lo < 0 else lo
+        bc = []
+        for idx in np.ndindex(*bshape):
+            ds = [abs(i - b // 2) for i, b in zip(idx, bshape)]
+            dist = sum(ds) if norm == 'l1' else max(ds)
+            h = top - step * dist
+            bc.append(h if h >= (0 if lo < 0 else 1) else floor)
+        return bshape, bc
     if dtype == 'bool':
         p = 0.0 if style < 0.05 else rng.choice([0.3, 0.6, 1.0])
         bc = [1 if rng.random() < p else 0 for _ in range(n)]
